@@ -34,6 +34,7 @@ THEOREMS = [
     "C13.addressed_end",
     "C13.constraints",
     "C13.constraints_untouched_without_type",
+    "C13.constraints_complete",
     "C13.no_spurious_refusal",
     "C13.computed_raises",
     "C13.identity_unsupported_raises",
@@ -106,7 +107,7 @@ def draw_values(rng, requested, stated, schema, exotic):
 
     def tkey():
         if exotic and rng.random() < 0.4:
-            return rng.choice(ai.TYPE_KEYS_CK)
+            return rng.choice(ai.TYPE_KEYS_CK + ai.TYPE_KEYS_CK_WRAPPED)
         return rng.choice(ai.TYPE_KEYS_COMMON)
 
     if "type" in requested:
@@ -217,8 +218,8 @@ def value_kinds(req):
         k(req["server_default"]),
         k(req["ex_default"]),
         req["comment"]["k"],
-        "ck" if req["type"] in ai.TYPE_KEYS_CK else "t" if req["type"] else "-",
-        "ck" if req["ex_type"] in ai.TYPE_KEYS_CK else "t" if req["ex_type"] else "-",
+        "ck" if req["type"] in ai.TYPE_KEYS_CK else "ckw" if req["type"] in ai.TYPE_KEYS_CK_WRAPPED else "t" if req["type"] else "-",
+        "ck" if req["ex_type"] in ai.TYPE_KEYS_CK else "ckw" if req["ex_type"] in ai.TYPE_KEYS_CK_WRAPPED else "t" if req["ex_type"] else "-",
         req["using"] is not None,
     )
 
@@ -285,6 +286,7 @@ class Batch:
             address_reported = False
             constraints_reported = False
             refusal_reported = False
+            complete_reported = False
             for init in inits:
                 s = next(ans)
                 if "err" in s:
@@ -309,6 +311,13 @@ class Batch:
                              % (r["err"], r["msg"][:100]),
                              impl={"stmts": impl_view["stmts"], "err": r["err"], "script": r["text"][:1500]},
                              tags=["refusal", dialect])
+                if not s.get("complete", True) and not complete_reported:
+                    complete_reported = True
+                    ctx.fail(inp, "constraints-missing: a type change is emitted without the constraint half (the named CHECK of the "
+                                  "stated existing type is not dropped and/or the CHECK of the new type is not added)",
+                             impl={"stmts": impl_view["stmts"], "script": r["text"][:1500],
+                                   "type_ck": (lreq["type"] or {}).get("ck"), "ex_type_ck": (lreq["ex_type"] or {}).get("ck")},
+                             tags=["constraints-missing", dialect])
                 if not s.get("constraints", True) and not constraints_reported:
                     constraints_reported = True
                     bad = [st for st in impl_view["stmts"] if st["k"] in ("dropConstraint", "addConstraint")]
@@ -345,7 +354,20 @@ def constraint_stream(rng):
                         req = draw_values(rng, req_attrs, stated, schema, False)
                         req["ex_type"] = ex
                         if with_type:
-                            req["type"] = rng.choice(ai.TYPE_KEYS_COMMON + ai.TYPE_KEYS_CK)
+                            req["type"] = rng.choice(ai.TYPE_KEYS_COMMON + ai.TYPE_KEYS_CK + ai.TYPE_KEYS_CK_WRAPPED)
+                        yield dialect, req
+            # the constraint owner reached indirectly (TypeDecorator impl, per-dialect variant; control: variant of another
+            # dialect): as existing_type and as type_, against plain and against each other
+            wrapped = ai.TYPE_KEYS_CK_WRAPPED
+            for ex in [None] + wrapped:
+                for ty in [None] + wrapped + ["int", "bool_ck"]:
+                    if ex is None and ty is None:
+                        continue
+                    for requested in ((), ("nullable",), ("new_name",)):
+                        req_attrs = tuple(requested) + (("type",) if ty else ())
+                        req = draw_values(rng, req_attrs, ("ex_type",) if ex else (), schema, False)
+                        req["ex_type"] = ex
+                        req["type"] = ty
                         yield dialect, req
 
 
@@ -482,6 +504,8 @@ def _verdict(ctx, dialect, req, init):
             return ("constraints", i, s), r, stmts
         if s.get("mustSucceed") and r["err"] is not None:
             return ("refusal", i, s), r, stmts
+        if not s.get("complete", True):
+            return ("constraints-missing", i, s), r, stmts
         if not s["exact"]:
             return ("exact" if s["plain"] else "exact-nonplain", i, s), r, stmts
     return None, r, stmts
